@@ -162,7 +162,8 @@ Inductive case :=
 | KGeoOf1 (M : m1obj) (out : Z * Q * Q)                                                   (* Mask1D.geometry *)
 | KUniform1C (n : Z) (s o : Q) (tol : Q) (out : g1obj)                                    (* Grid1D.uniform *)
 | KFromMask1C (M : m1obj) (tol : Q) (out : g1obj)                                         (* Grid1D.from_mask *)
-| KDeriveAllFalse1 (M : m1obj) (tol : Q) (out : g1obj).                                   (* Mask1D.derive_grid.all_false: specification only *)
+| KDeriveAllFalse1 (M : m1obj) (tol : Q) (out : g1obj)                                    (* Mask1D.derive_grid.all_false: specification only *)
+| KUniformFromZero1 (n : Z) (s : Q) (tol : Q) (out : g1obj).                              (* Grid1D.uniform_from_zero (sibling constructor) *)
 
 (* ------------------------------------------------------------------ the specification applied to the implementation's output *)
 Definition all2 {A B} (f : A -> B -> bool) (l1 : list A) (l2 : list B) : bool :=
@@ -280,4 +281,7 @@ Definition spec_ok (k : case) : bool :=
       let n := Z.of_nat (length (fst (fst M))) in
       m1obj_eqb (snd out) (map (fun _ => false) (seqZ n), snd (fst M), snd M) &&
       all2 (qtol tol) (fst out) (map (@centre1_spec QOps n (snd (fst M)) (snd M)) (seqZ n))
+  | KUniformFromZero1 n s tol out =>
+      (* pixel k at k pixel scales from zero, on the all-false mask with origin 0 *)
+      m1obj_eqb (snd out) (map (fun _ => false) (seqZ n), s, 0%Q) && all2 (qtol tol) (fst out) (map (fun k => inject_Z k * s)%Q (seqZ n))
   end.
